@@ -123,6 +123,16 @@ class Gen:
                 lines.append("clr")
             elif c < 86:
                 lines.append("clrk %d" % i)
+            elif c < 94 and with_reload and r.chance(0.45):
+                # what save() writes, token by token; then (sometimes) a stream cut after m tokens loaded
+                # into a fresh table: the failure paths of load() and the state they leave
+                lines.append("dump")
+                if r.chance(0.6):
+                    lines.append("loadcut %d" % (r.below(100) if r.chance(0.8) else 100))
+                    for _ in range(r.between(1, 6)):
+                        lines.append("find %d" % (hot if r.chance(0.4) else r.below(len(keys))))
+                    if r.chance(0.3):
+                        lines.append("dump")
             elif c < 94 and with_reload:
                 lines.append("reload")
                 if r.chance(0.4):
@@ -324,9 +334,20 @@ def run(chk, replay=None):
         if a.startswith("died") or a == "skipped":
             continue
         chk.count("op:" + (cmd if cmd in ("new", "ins", "find", "clr", "clrk", "reload", "jump", "pnew", "peval",
-                                          "pdata", "pclr", "preload") else "malformed"))
-        if cmd in ("find", "peval", "reload", "preload"):
+                                          "pdata", "pclr", "preload", "dump", "loadcut") else "malformed"))
+        if cmd in ("find", "peval", "reload", "preload", "dump", "loadcut"):
             chk.seen(h.hexdigest())
+        if cmd == "dump" and a.startswith("dump s "):
+            chk.count("dump:entries", a.count(" k "))
+            chk.count("dump:empty" if " k " not in a else "dump:non-empty")
+        if cmd == "loadcut" and a.startswith("loadcut "):
+            tt = strip(a).split()
+            if len(tt) == 3 and tt[2].isdigit() and len(t) == 2:
+                tot = int(tt[2])
+                m = tot if int(t[1]) >= 100 else tot * int(t[1]) // 100
+                chk.count("loadcut:" + ("complete" if m >= tot else "no-header" if m < 2 else
+                                        "between-entries" if m % 2 == 0 else "inside-an-entry"))
+                chk.count("loadcut:accepted" if tt[1] == "1" else "loadcut:rejected")
         if cmd == "find" and a.startswith("f "):
             chk.count("find:hit" if a.split()[1] != "0" else "find:miss")
             chk.count("fitlen:" + a.split()[1])
@@ -349,7 +370,7 @@ def run(chk, replay=None):
                     first_dis = (i, si)
             if " | gen " in la:
                 ngm += 1
-            if cmd in ("find", "peval") and gen_part(la) != strip(a):
+            if cmd in ("find", "peval", "reload", "preload", "dump", "loadcut") and gen_part(la) != strip(a):
                 ngen += 1
                 if first_gen is None:
                     first_gen = (i, si)
